@@ -16,7 +16,7 @@ DATATYPES = ['.fill', '.zero', '.zerountil', '.byte', '.2byte', '.4byte', '.8byt
 PREPROC = ['include', 'require', 'create_memzone', 'define', 'if', 'elif', 'else', 'endif', 'ifdef', 'ifndef', 'mute', 'unmute', 'emit']
 MN_POOL = ['ld', 'lda', 'ld.w', 'ld.b', 'st', 'sta', 'mov', 'mov16', 'a', 'x', 'jmp', 'j', 'add.c', 'adc', 'push2', 'p', 'inc', 'in',
            'sub_w', 'br.eq', 'br', 'q7', '_brk', 'ld_', '_t_']
-REG_POOL = ['a', 'b', 'x', 'sp', 'hl', 'ix', 'r0', 'r1', 'r10', 'mar', 'acc', 'sp_', '_fp']
+REG_POOL = ['a', 'b', 'x', 'sp', 'hl', 'ix', 'r0', 'r1', 'r10', 'mar', 'acc', 'sp_', '_fp', 'b0', 'b1', 'b10', 'ah', 'bh', 'c0h']
 MACRO_POOL = ['push2x', 'mov2', 'ld2', 'm.dot', 'jsr2', 'st', '_push2', 'call_']
 
 
@@ -85,7 +85,7 @@ class C20(core.Check):
     required_buckets = {b: 3 for b in ['target:vscode', 'target:sublime', 'vocab:macros', 'vocab:no-macros', 'vocab:registers',
                                        'vocab:no-registers', 'vocab:predefined', 'vocab:no-predefined', 'mnemonic:contains-dot',
                                        'mnemonic:prefix-of-another', 'mnemonic:single-letter', 'vocab:underscore-at-edge',
-                                       'description:special-characters', 'verbosity:1', 'verbosity:2', 'verbosity:3']}
+                                       'description:special-characters', 'register:looks-like-a-numeric-literal', 'verbosity:1', 'verbosity:2', 'verbosity:3']}
 
     def __init__(self):
         self.words = 0
@@ -109,6 +109,8 @@ class C20(core.Check):
                 tags.add('mnemonic:single-letter')
             if any(w.startswith('_') or w.endswith('_') for w in mns + macros + regs):
                 tags.add('vocab:underscore-at-edge')
+            if any(r_ in ('b0', 'b1', 'b10', 'ah', 'bh', 'c0h') for r_ in regs):
+                tags.add('register:looks-like-a-numeric-literal')
             if isa['description'] != DESCRIPTIONS[0]:
                 tags.add('description:special-characters')
             for tgt in ('vscode', 'sublime'):
@@ -235,6 +237,46 @@ class C20(core.Check):
                 if not any(pos <= h <= pos + 1 for h in hits):
                     kind = 'macro' if w in m['macros'] else 'instruction'
                     found.append((f'statement-end-lookahead-misses-{kind}/{endcls}', {'word': w, 'pattern': pat[:300]}))
+        # (4) rule order: right after a mnemonic (and inside [ ]) the FIRST rule that matches at the register's position
+        # must be the register rule, over exactly the register's span (registers named like numeric literals - b0, ah -
+        # or like other identifiers are still registers)
+        ctxs = po.get('contexts') or {}
+        REGSCOPE = 'variable.language.register'
+        for ctx_name, opener, closer in (('operand', '', ''), ('bracket', '[', ']'), ('macro-operand', '', '')):
+            rules = ctxs.get(ctx_name)
+            host = (m['macros'] if ctx_name == 'macro-operand' else m['mns'])
+            if not rules or not m['regs'] or not host:
+                continue
+            comp = []
+            bad_rx = False
+            for sc, pat in rules:
+                try:
+                    comp.append((sc, re.compile(pat)))
+                except re.error:
+                    bad_rx = True
+            if bad_rx:
+                vs.append(core.inconclusive('pattern not compilable by Python re: context ' + ctx_name))
+                continue
+            for r_ in m['regs']:
+                for form in (r_, r_.upper()):
+                    self.words += 1
+                    line = host[0] + ' ' + opener + form + closer
+                    pos = len(host[0]) + 1 + len(opener)
+                    best = None
+                    for k_, (sc, rx) in enumerate(comp):
+                        mm = rx.search(line, pos)
+                        if mm is None or (mm.end() == mm.start() and sc not in ('END', 'POP')):
+                            continue
+                        if mm.end() == mm.start() and mm.start() < len(line):
+                            continue            # a look-ahead that matches in the middle of the line ends nothing here
+                        key = (mm.start(), k_)
+                        if best is None or key < best[0]:
+                            best = (key, sc, mm.start(), mm.end())
+                    tags_ctx = f'{ctx_name}'
+                    if best is None or best[1] != REGSCOPE or (best[2], best[3]) != (pos, pos + len(form)):
+                        found.append((f'register-not-first-rule-in-context/{tags_ctx}',
+                                      {'line': line, 'register': form, 'won': None if best is None else {'scope': best[1], 'span': [best[2], best[3]]},
+                                       'rule_order': [sc for sc, _ in rules][:14]}))
         # an instruction must not also be classified as a macro and vice versa
         if not m['macros'] and (pats.get('macro') is not None or po.get('includes_macros')) and m['target'] == 'vscode':
             found.append(('macro-rule-present-without-macros', {'pattern': pats.get('macro')}))
